@@ -808,6 +808,25 @@ def _condensed_tables(model, rep):
                  f"Basis(m, eo).split(x) pairs 9 coefficients with a "
                  f"component basis of 17 DOFs (ElementVector("
                  f"ElementTriMini()))", (d[0] if d else fn).lineno)
+    d = [n for n in walk_no_nested(fn.node) if isinstance(n, ast.Assign)
+         and src(n.targets[0]) == f"{eo}.elems"]
+    okc_ = bool(d) and any(
+        isinstance(x, ast.Subscript) and isinstance(x.value, ast.Call)
+        and isinstance(x.value.func, ast.Attribute)
+        and x.value.func.attr == "condensed" and src(x.slice) == "1"
+        for x in ast.walk(d[0].value))
+    cons = "Element.condensed:components[outer elems]"
+    if okc_:
+        rep.ok(R5, cons, f"{eo}.elems are the outer parts of the components")
+    else:
+        rep.fail(R5, fn.path, "Element.condensed", cons,
+                 f"the components of the outer part of a composite element "
+                 f"only get their interior count zeroed: a component that "
+                 f"is itself a wrapper (ElementVector(ElementTriMini()) * "
+                 f"ElementTriP1(), the MINI Stokes pair) still wraps the "
+                 f"full element, and splitting its part of the solution "
+                 f"pairs 25 coefficients with a basis of 57 DOFs",
+                 (d[0] if d else fn).lineno)
     for attr, what in (("elems", "tuple of the components' interior parts"),
                        ("elem", "interior part of the wrapped element")):
         d = stores.get(attr)
